@@ -309,3 +309,32 @@ SPECS["C10"] = {
          "limits": {"quick": {"timeout": "900s"}, "thorough": {"timeout": "5400s"}}},
     ],
 }
+
+
+SPECS["C01"] = {
+    "explanation": "Composition of solver-checked facts about the sequential kernels the property's mechanism names. INGEST: the real MetricMap.Receive on k symbolic "
+                   "metrics (type, value, rate in (0,1], name/tag set over a 2x2 universe): counter = sum of trunc(value/rate), timer holds every value once with "
+                   "sampled count = sum of 1/rate, set members exactly those received, nothing that was never sent. SPLIT: C06. AGGREGATOR STEP (one-step "
+                   "inductive): an ARBITRARY aggregate over the key universe with ghost 'pending' equal to it, then one command: ReceiveMap(arbitrary batch) => "
+                   "aggregate = pending + batch; or the real MetricFlusher.flushData (Flush -> Process(send) -> Reset inside one process command, with a recording "
+                   "backend) => the map handed to the backend is exactly 'pending' and afterwards every surviving series is empty. PIPELINE (history): the real "
+                   "BackendHandler with 1..3 workers (real worker goroutines and queues under the engine's cooperative scheduler, real MetricAggregators), real "
+                   "DispatchMetricMap/Split and real flushData, driven by 2..4 symbolic commands {dispatch a datapoint | flush}; where a worker's select has both a "
+                   "queued batch and a flush command ready, both orders are explored (schedule variable). Summed over all flushes every counter equals the sum "
+                   "sent, nothing unsent is reported, no series twice within one flush.",
+    "bounds": {"quick": "ingest: k <= 2 metrics; step: counters over 2 names x 2 tag sets, timers/sets over 1 name x 2 tag sets (<= 2 values/members); pipeline: 1..3 workers, <= 3 commands",
+               "thorough": "ingest k = 3; step: timers and sets over 2x2; pipeline 2 workers x 4 commands"},
+    "outside": ["real concurrency: data races between parser, worker and flusher goroutines; the engine runs ONE interleaving of goroutines (run-to-block) plus the explicit select choices",
+                "shutdown", "float rounding of value/rate (math mode: the harness and the code evaluate the same real expression)"],
+    "assumptions": STUBS_COMMON + [MATH_NOTE, TIME_MODEL, "goroutines are scheduled cooperatively and deterministically: a spawned goroutine runs until it blocks; a blocked goroutine resumes when its channel/WaitGroup condition holds"],
+    "jobs": [
+        {"pkg": "./pkg/statsd", "harness": "pkg/statsd", "mode": "math",
+         "entries": {"quick": ["VerifC01_Ingest1", "VerifC01_Ingest2", "VerifC01_StepCounters", "VerifC01_StepTimers", "VerifC01_StepSets",
+                               "VerifC01_Pipeline_1_2", "VerifC01_Pipeline_2_3", "VerifC01_Pipeline_3_3", "VerifC01_Twin"],
+                     "thorough": ["VerifC01_Ingest1", "VerifC01_Ingest2", "VerifC01_Ingest3", "VerifC01_StepCounters", "VerifC01_StepTimers", "VerifC01_StepSets",
+                                  "VerifC01_StepTimers2", "VerifC01_StepSets2", "VerifC01_Pipeline_1_2", "VerifC01_Pipeline_2_3", "VerifC01_Pipeline_3_3", "VerifC01_Pipeline_2_4", "VerifC01_Twin"]},
+         "reach": {"VerifC01_Ingest2": ["ingested"], "VerifC01_StepCounters": ["received", "flushed"], "VerifC01_StepTimers": ["received", "flushed"], "VerifC01_Pipeline_2_3": ["dispatched", "flush"]},
+         "twin": {"VerifC01_Twin": True},
+         "limits": {"quick": {"timeout": "900s"}, "thorough": {"timeout": "5400s"}}},
+    ],
+}
